@@ -165,6 +165,14 @@ def build_project(cells, dep5=False, dirs=("d", "e")):
             files[rel] = "body\n"
             expected["u:" + rel] = (rel,) + A.attribute(None, chain)
     if not dep5:
+        # one REUSE.toml stating the same path twice, with a narrower table in between: the LAST matching table applies, also below the narrower one
+        for n_, (pth, tag) in enumerate((("w/**", "first"), ("w/v/**", "narrow"), ("w-unrelated/**", "other"), ("w/**", "last"))):
+            tables[0].append((pth, "closest", [f"2007 w-{tag}"], [f"LicenseRef-w-{tag}"]))
+        last = {"prec": "closest", "cop": ["2007 w-last"], "lic": ["LicenseRef-w-last"], "source": "REUSE.toml", "stype": "reuse-toml"}
+        for rel in ("w/a.txt", "w/v/b.txt", "w/v/deep/c.txt"):
+            files[rel] = "body\n"
+            expected["w:" + rel] = (rel,) + A.attribute(None, [last])
+    if not dep5:
         # a nearer REUSE.toml whose table states an EMPTY copyright string (and nothing else / a licence): it provides no copyright,
         # so the outer closest table still supplies it
         cop, lic = ["2006 shared-v"], ["LicenseRef-shared-v"]
